@@ -99,6 +99,8 @@ def norm_panic_msg(msg: str) -> str:
 def panic_signature(stderr: str, rc: int = 0) -> str:
     if "has overflowed its stack" in stderr:
         return "stack-overflow"
+    if "memory allocation of" in stderr and "failed" in stderr:
+        return "out-of-memory"
     m = _PANIC_RE.search(stderr)
     if m:
         return f"panic {m.group(1)}: {norm_panic_msg(m.group(2))}"
@@ -111,6 +113,16 @@ def hook_panic_signature(p: dict) -> str:
     return f"panic {p.get('location')}: {norm_panic_msg(p.get('message', ''))}"
 
 
+MEMORY_LIMIT_BYTES = 2 << 30
+
+
+# every garden child gets an address-space limit, so that a generated program that builds an enormous value fails
+# with an allocation error (reported as `out-of-memory`, never as a property violation) instead of taking the machine's
+# memory.  The limit is applied by util-linux `prlimit` rather than a preexec_fn: a preexec_fn makes Python fork the
+# whole (large) shard process for every child, which made the process-heavy checks three times slower.
+MEMLIMIT_PREFIX = (["/usr/bin/prlimit", f"--as={MEMORY_LIMIT_BYTES}"] if os.path.exists("/usr/bin/prlimit") else [])
+
+
 def run_garden(args: list, stdin: Optional[str] = None, cwd: Optional[str] = None,
                timeout: float = 20.0, env: Optional[dict] = None, binary: bool = False) -> Run:
     e = dict(os.environ)
@@ -120,7 +132,7 @@ def run_garden(args: list, stdin: Optional[str] = None, cwd: Optional[str] = Non
     if env:
         e.update(env)
     try:
-        p = subprocess.Popen([GARDEN] + [str(a) for a in args], cwd=cwd, env=e,
+        p = subprocess.Popen(MEMLIMIT_PREFIX + [GARDEN] + [str(a) for a in args], cwd=cwd, env=e,
                              stdin=subprocess.PIPE if stdin is not None else subprocess.DEVNULL,
                              stdout=subprocess.PIPE, stderr=subprocess.PIPE,
                              start_new_session=True)
@@ -479,6 +491,15 @@ def _name_salt(s: str) -> int:
     return int(hashlib.blake2b(s.encode(), digest_size=4).hexdigest(), 16)
 
 
+def _normalise(res: Res) -> Res:
+    """a garden child that ran into the address-space limit (see _limit_memory) exhausted a resource of this machine;
+    that is never a property violation, whatever the property module made of the abort"""
+    if (not res.ok) and "out-of-memory" in (res.signature or ""):
+        return Res(ok=True, inconclusive=True, classes=res.classes,
+                   detail="a garden process hit the memory limit: " + res.detail[:200])
+    return res
+
+
 def _handle(sub: Sub, case, res: Res, stats: _Stats, known) -> bool:
     """Record a result. Returns True if it is an unlisted failure."""
     if res.ok or res.inconclusive:
@@ -508,7 +529,7 @@ def _run_enum(sub, ctx, stats, known, tier, shard, nshards):
     for i, case in enumerate(sub.enum(tier)):
         if i % nshards != shard:
             continue
-        res = sub.check(case, ctx)
+        res = _normalise(sub.check(case, ctx))
         if _handle(sub, case, res, stats, known):
             stats.record(sub, case, res)
             if res.signature not in seen_sigs and len(stats.failures) < 5:
@@ -533,7 +554,7 @@ def _run_hyp(sub, ctx, stats, known, n, seed):
     @given(st.data())
     def t(data):
         case = sub.gen(R(data))
-        res = sub.check(case, ctx)
+        res = _normalise(sub.check(case, ctx))
         if state["failed"]:
             # shrinking / final replay: do not count, only track the failure
             is_fail = (not res.ok) and (not res.inconclusive) and match_known(known, res.signature) is None
@@ -692,7 +713,7 @@ def replay(mod, path: str) -> int:
     sub = next(s for s in mod.SUBS if s.name == rec["sub"])
     ctx = Ctx(pid, "quick", strict=True)
     try:
-        res = sub.check(rec["case"], ctx)
+        res = _normalise(sub.check(rec["case"], ctx))
     finally:
         ctx.close()
     if res.inconclusive:
